@@ -83,6 +83,9 @@ pub struct Cfg {
     /// > 0: cleanup interval in nanoseconds (instead of `cleanup_ms`)
     #[serde(default)]
     pub cleanup_ns: u64,
+    /// the key builder overrides `build_key` only and leaves `hash_conflict` at the trait's default (0)
+    #[serde(default)]
+    pub kb_build_key_only: bool,
 }
 
 #[derive(Serialize, Deserialize, Clone, Debug, PartialEq)]
